@@ -178,9 +178,9 @@ HELPER_CONTRACTS = '''
 #define GHOST_THROW(c) (ghost_throw = 1000 + (c))
 #define GHOST_PROCESS_EXIT(c) (ghost_process_exit = 1000 + (c))
 #define CONTRACT_masa_exit_exc \\
-  __CPROVER_assigns(ghost_msg, ghost_throw) __CPROVER_ensures(ghost_throw == 1000 + ex)
+  __CPROVER_requires(-1000000 < ex && ex < 1000000) __CPROVER_assigns(ghost_msg, ghost_throw) __CPROVER_ensures(ghost_throw == 1000 + ex)
 #define CONTRACT_masa_exit_noexc \\
-  __CPROVER_assigns(ghost_msg, ghost_process_exit) __CPROVER_ensures(ghost_process_exit == 1000 + ex)
+  __CPROVER_requires(-1000000 < ex && ex < 1000000) __CPROVER_assigns(ghost_msg, ghost_process_exit) __CPROVER_ensures(ghost_process_exit == 1000 + ex)
 '''
 
 
